@@ -7,7 +7,7 @@ namespace LLFree
 open Prog
 
 section
-variable {c : Cfg} {H : Nat → Prop} {P : Nat → Nat} {R : Nat → Prop} {m : Mem}
+variable {c : Cfg} {H : Nat → Nat} {P : Nat → Nat} {R : Nat → Prop} {m : Mem}
 
 theorem sum_eq_zero_of_all_zero (l : List Nat) (h : ∀ x ∈ l, x = 0) : l.sum = 0 := by
   induction l with
@@ -67,17 +67,17 @@ theorem changeTree_eq (mid mcls : Option Nat) (mfree : Nat) (ccls : Option Nat) 
       | none => Trees.search c.ntrees 0 0 c.ntrees (changeAtP c mcls mfree ccls op) := rfl
 
 /-- what a change of tree `i` guarantees -/
-structure ChangePost (c : Cfg) (H H' : Nat → Prop) (m m' : Mem) (i : Nat) (op : Option Tree.Op) (res : Res Unit) : Prop where
+structure ChangePost (c : Cfg) (H H' : Nat → Nat) (m m' : Mem) (i : Nat) (op : Option Tree.Op) (res : Res Unit) : Prop where
   same : SameAlloc m m'
   slots : m'.slots = m.slots
   inv : UpperInv0 c H' m'
-  other : ∀ j, j ≠ i → (H' j ↔ H j)
+  other : ∀ j, j ≠ i → H' j = H j
   /-- a refused change changes nothing -/
-  unchanged : res ≠ .ok () → m = m' ∧ (H' i ↔ H i)
+  unchanged : res ≠ .ok () → m = m' ∧ H' i = H i
   /-- only `Offline` hides frames -/
-  notOffline : op ≠ some .offline → H' i → H i
+  notOffline : op ≠ some .offline → H' i ≤ H i
   /-- a successful `Online` restores the counter exactly: nothing of the tree stays hidden -/
-  online : op = some .online → res = .ok () → ¬ H' i
+  online : op = some .online → res = .ok () → H' i = 0
   /-- a successful `Offline` leaves an unreserved tree with counter 0 -/
   offline : op = some .offline → res = .ok () → ∃ t' : Tree, m'.trees[i]? = some t' ∧ t'.free = 0 ∧ t'.reserved = false
   /-- other trees are untouched -/
@@ -90,9 +90,9 @@ theorem Runs.load_tree {α : Type} {i : Nat} {t : Tree} {k : Tree → Prog α} {
 
 /-- updating an unreserved tree (no slot points to it) with a new counter -/
 theorem UpperInv.set_unreserved (inv : UpperInv0 c H m) (i : Nat) (t t' : Tree) (ht : m.trees[i]? = some t)
-    (hr : t.reserved = false) (hr' : t'.reserved = false) (hcls : t'.cls < 8) (H' : Nat → Prop)
-    (hH : ∀ j, j ≠ i → (H' j ↔ H j))
-    (hle : t'.free ≤ m.freeInTree c.geom i) (heq : ¬ H' i → t'.free = m.freeInTree c.geom i) :
+    (hr : t.reserved = false) (hr' : t'.reserved = false) (hcls : t'.cls < 8) (H' : Nat → Nat)
+    (hH : ∀ j, j ≠ i → H' j = H j)
+    (heq : t'.free + H' i = m.freeInTree c.geom i) :
     UpperInv0 c H' (m.set .tree i t') := by
   have hsf := inv.slotFree_unreserved i t ht hr
   apply inv.set_tree i t t' ht H' (fun _ => 0) (fun _ => False) hcls
@@ -104,9 +104,8 @@ theorem UpperInv.set_unreserved (inv : UpperInv0 c H m) (i : Nat) (t t' : Tree) 
   · intro h; exact h.elim
   · intro j _; exact Iff.rfl
   · intro j _; rfl
-  · intro j hj hn h; exact hn ((hH j hj).2 h)
+  · exact hH
   · rw [hsf]; omega
-  · intro hn; rw [hsf]; have := heq hn; omega
 
 theorem changeAtP_spec (ok : CfgOk c) (inv : UpperInv0 c H m) (mcls : Option Nat) (mfree : Nat) (ccls : Option Nat)
     (op : Option Tree.Op) (i : Nat) (hccls : ∀ k, ccls = some k → k < 8) :
@@ -114,7 +113,7 @@ theorem changeAtP_spec (ok : CfgOk c) (inv : UpperInv0 c H m) (mcls : Option Nat
   have okg := ok.geom.toGeomOk
   have trivialPost : ∀ res : Res Unit, res ≠ .ok () → ∃ H', ChangePost c H H' m m i op res := by
     intro res hres
-    exact ⟨H, ⟨SameAlloc.refl _, rfl, inv, fun _ _ => Iff.rfl, fun _ => ⟨rfl, Iff.rfl⟩, fun _ h => h,
+    exact ⟨H, ⟨SameAlloc.refl _, rfl, inv, fun _ _ => rfl, fun _ => ⟨rfl, rfl⟩, fun _ => Nat.le_refl _,
       fun _ h => absurd h hres, fun _ h => absurd h hres, fun _ _ => rfl⟩⟩
   unfold changeAtP
   by_cases hi : i ≥ c.ntrees
@@ -168,12 +167,11 @@ theorem changeAtP_spec (ok : CfgOk c) (inv : UpperInv0 c H m) (mcls : Option Nat
         rintro _ _ ⟨rfl, rfl⟩
         apply Runs.pure
         have hsf := inv.slotFree_unreserved i t ht hr
-        have hle := inv.counterLe i t ht
-        refine ⟨H, ⟨⟨rfl, rfl⟩, rfl, ?_, fun _ _ => Iff.rfl, fun h => absurd rfl h, fun _ h => h,
+        have hcnt := inv.counter i t ht
+        refine ⟨H, ⟨⟨rfl, rfl⟩, rfl, ?_, fun _ _ => rfl, fun h => absurd rfl h, fun _ => Nat.le_refl _,
           (fun h => by cases h), (fun h => by cases h), ?_⟩⟩
-        · apply inv.set_unreserved i t s ht hr hsres hscls H (fun _ _ => Iff.rfl)
-          · rw [hsfree]; omega
-          · intro hn; have := inv.counterEq i t ht hn; rw [hsfree]; omega
+        · apply inv.set_unreserved i t s ht hr hsres hscls H (fun _ _ => rfl)
+          rw [hsfree]; omega
         · intro j hj
           simp only [Mem.set_tree_trees, Array.getElem?_setIfInBounds]
           have : ¬ i = j := fun e => hj e.symm
@@ -186,13 +184,14 @@ theorem changeAtP_spec (ok : CfgOk c) (inv : UpperInv0 c H m) (mcls : Option Nat
             (by simpa using ht) hf ⟨rfl, rfl⟩)
           rintro _ _ ⟨rfl, rfl⟩
           apply Runs.pure
-          refine ⟨fun j => H j ∨ j = i, ⟨⟨rfl, rfl⟩, rfl, ?_, ?_, fun h => absurd rfl h, fun h => absurd rfl h,
+          have hsf := inv.slotFree_unreserved i t ht hr
+          have hcnt := inv.counter i t ht
+          refine ⟨gset H i (H i + t.free), ⟨⟨rfl, rfl⟩, rfl, ?_, ?_, fun h => absurd rfl h, fun h => absurd rfl h,
             (fun h => by cases h), ?_, ?_⟩⟩
           · apply inv.set_unreserved i t { s with free := 0 } ht hr hsres hscls
-            · intro j hj; exact ⟨fun h => h.elim id (fun e => absurd e hj), Or.inl⟩
-            · exact Nat.zero_le _
-            · intro hn; exact absurd (Or.inr rfl) hn
-          · intro j hj; exact ⟨fun h => h.elim id (fun e => absurd e hj), Or.inl⟩
+            · intro j hj; exact gset_other _ _ _ j hj
+            · simp only [gset_same]; omega
+          · intro j hj; exact gset_other _ _ _ j hj
           · intro _ _
             refine ⟨{ s with free := 0 }, ?_, rfl, hsres⟩
             have hsz : i < m.trees.size := (Array.getElem?_eq_some_iff.1 ht).1
@@ -214,13 +213,12 @@ theorem changeAtP_spec (ok : CfgOk c) (inv : UpperInv0 c H m) (mcls : Option Nat
               (by simpa using ht) hf ⟨rfl, rfl⟩)
             rintro _ _ ⟨rfl, rfl⟩
             apply Runs.pure
-            refine ⟨fun j => H j ∧ j ≠ i, ⟨⟨rfl, rfl⟩, rfl, ?_, ?_, fun h => absurd rfl h, fun _ h => h.1,
-              fun _ _ h => h.2 rfl, (fun h => by cases h), ?_⟩⟩
+            refine ⟨gset H i 0, ⟨⟨rfl, rfl⟩, rfl, ?_, ?_, fun h => absurd rfl h, fun _ => by simp only [gset_same]; exact Nat.zero_le _,
+              fun _ _ => gset_same _ _ _, (fun h => by cases h), ?_⟩⟩
             · apply inv.set_unreserved i t { s with free := ff } ht hr hsres hscls
-              · intro j hj; exact ⟨fun h => h.1, fun h => ⟨h, hj⟩⟩
-              · show ff ≤ _; omega
-              · intro _; exact hffv
-            · intro j hj; exact ⟨fun h => h.1, fun h => ⟨h, hj⟩⟩
+              · intro j hj; exact gset_other _ _ _ j hj
+              · simp only [gset_same]; show ff + 0 = _; omega
+            · intro j hj; exact gset_other _ _ _ j hj
             · intro j hj
               simp only [Mem.set_tree_trees, Array.getElem?_setIfInBounds]
               have : ¬ i = j := fun e => hj e.symm
@@ -305,7 +303,7 @@ theorem changeTree_spec (ok : CfgOk c) (inv : UpperInv0 c H m) (mid mcls : Optio
     · intro m1 hI
       subst hI
       refine ⟨fun _ => rfl, H, 0, ?_, fun _ h => by cases h⟩
-      exact ⟨SameAlloc.refl _, rfl, inv, fun _ _ => Iff.rfl, fun _ => ⟨rfl, Iff.rfl⟩, fun _ h => h,
+      exact ⟨SameAlloc.refl _, rfl, inv, fun _ _ => rfl, fun _ => ⟨rfl, rfl⟩, fun _ => Nat.le_refl _,
         (fun _ h => by cases h), (fun _ h => by cases h), fun _ _ => rfl⟩
     · rfl
     · by_cases h : c.ntrees = 0
